@@ -72,8 +72,9 @@ package state
 // it is already in; both are preconditions here and obligations at call sites.
 //@ func (*State).Down
 //@   serves C04
-//@   requires st != nil && len(st.ExecPath) <= MaxLevel
-//@   requires len(st.ExecPath) > 0 ==> last(st) != input
+//@   requires st != nil
+//@   requires[C08] @maxlevel len(st.ExecPath) <= MaxLevel
+//@   premise len(st.ExecPath) > 0 ==> last(st) != input
 //@   modifies st.ExecPath, st.ExecPath[*], st.SizeIdx, st.Moves, st.lastMove
 //@   ensures @down result == nil && len(st.ExecPath) == old(len(st.ExecPath)) + 1 && last(st) == input && st.SizeIdx == 0
 //@   ensures @kept pathPrefix(st, old(len(st.ExecPath)))
